@@ -3,6 +3,7 @@ import ExprModel.Proofs.ParsePrintTop
 import ExprModel.Proofs.ParserMono
 import ExprModel.Proofs.ParserFuel
 import ExprModel.Proofs.ParserCanonAll2
+import ExprModel.Proofs.ParserErase5
 import ExprModel.Syntax.ParserNum
 import ExprModel.Props.C12
 /-
@@ -185,42 +186,35 @@ theorem print_injective {cfg : Cfg} {sh : NumShow} (hs : Setting cfg sh) (t t' :
   rw [h, h2] at h1
   cases h1; rfl
 
-/-! ### Goal that is stated but not proved
+/-! ### An accepted token list *is* a printing of its tree
 
-What remains of the rejection side is purely syntactic: an accepted token list *is* (not merely parses like) a
-printing of its tree, up to redundant parentheses and the alternative spellings the grammar offers
-(`c ?: b`, `.x` for `#.x`, identifier/number map keys, one trailing comma).  Stated for the values of the
-tokens with all parentheses erased, over token lists that use none of the alternative spellings. -/
+`eraseText` (Proofs/ParserEraseDefs): the text of a token list up to the spellings the grammar treats alike —
+parentheses and `#` dropped (`.x` is `#.x`), `?.` read as `.` (a plain link after `?.` is nil-safe anyway),
+token kinds forgotten (`{a: 1}` is `{"a": 1}`).  `altFree`: no `?:`, no trailing comma.  `numbersPlain`:
+number tokens spelled the way the printer spells their value. -/
 
-/-- the text of a token list up to the spellings the grammar treats alike: parentheses and `#` dropped
-    (`.x` is `#.x`), `?.` read as `.` (a plain link after `?.` is nil-safe anyway), token kinds forgotten
-    (`{a: 1}` is `{"a": 1}`) -/
-def eraseText (ts : List Token) : List String :=
-  (ts.filter fun t => !(t.is .bracket "(" || t.is .bracket ")" || t.is .operator "#")).map
-    fun t => if t.value == "?." then "." else t.value
+theorem tables_no_hash : EraHyp { tb := Gen.parserTables, num := fun _ => none } :=
+  ⟨by decide +kernel, by decide +kernel⟩
 
-/-- no `?:` and no trailing comma -/
-def altFree : List Token → Bool
-  | a :: b :: rest =>
-    !(a.is .operator "?" && b.is .operator ":") &&
-    !(a.is .operator "," && (b.is .bracket "]" || b.is .bracket "}")) && altFree (b :: rest)
-  | _ => true
-
-/-- every number token is spelled the way the printer spells its value -/
-def numbersPlain (cfg : Cfg) (sh : NumShow) (ts : List Token) : Prop :=
-  ∀ t ∈ ts, t.kind = .number →
-    (∃ n : Nat, cfg.num t.value = some (.int n) ∧ t.value = sh.showInt n) ∨
-    (∃ b, cfg.num t.value = some (.float b) ∧ t.value = sh.showFloat b)
-
-/-- An accepted token list *is* the minimal printing of its tree up to `eraseText`, provided it ends in its only
-    EOF token and uses neither `?:`, trailing commas nor unusual number spellings.  Not proved (it needs the
-    inversion of every parser function); the harness checks exactly this statement on every accepted input of
-    the correspondence (`erase` counters). -/
-def parse_erase_goal : Prop :=
-  ∀ (cfg : Cfg) (sh : NumShow), Setting cfg sh → ImageSetting cfg → ∀ (ts0 : List Token) (t : Node),
-    (∀ x ∈ ts0, x.kind ≠ .eof) → parse cfg (ts0 ++ [eofTok]) = .ok t →
-    altFree ts0 = true → numbersPlain cfg sh ts0 →
-    eraseText (ts0 ++ [eofTok]) = eraseText (printEof cfg sh (fun _ => 0) {} t)
+/-- **The accepted language is the set of printings.**  If the parser accepts `ts0 ++ [EOF]` (its only EOF
+    token) with tree `t`, and `ts0` uses neither `?:`, a trailing comma nor an unusual number spelling, then the
+    token list is the printing of `t` — for every choice of redundant parentheses — up to `eraseText`.  With
+    `parse_print` (every printing of a canonical tree is accepted, with that tree) and `parse_canonical` this
+    characterises acceptance exactly: the accepted token lists are the printings of canonical trees, up to
+    parentheses and the listed alternative spellings; everything else is rejected with an error
+    (`parse_fuel_sufficient`). -/
+theorem parse_erase {cfg : Cfg} {sh : NumShow} (hi : ImageSetting cfg) (ts0 : List Token) (t : Node)
+    (h0 : noEof ts0) (h : parse cfg (ts0 ++ [eofTok]) = .ok t)
+    (ha : altFree ts0 = true) (hn : numbersPlain cfg sh ts0) (pc : ParenChoice) :
+    eraseText (ts0 ++ [eofTok]) = eraseText (printEof cfg sh pc {} t) := by
+  have hy : EraHyp cfg := by
+    have := tables_no_hash
+    exact ⟨by rw [hi.tables]; exact this.bin_hash, by rw [hi.tables]; exact this.un_hash⟩
+  unfold parse at h
+  cases hp : parseFuel cfg (fuelFor (ts0 ++ [eofTok])) (ts0 ++ [eofTok]) with
+  | ok n => rw [hp] at h; cases h; exact parseFuel_erase cfg sh hy hi.hyp _ ts0 t h0 hp ha hn pc
+  | error e => rw [hp] at h; cases h
+  | outOfFuel => rw [hp] at h; cases h
 
 /-! ### Non-vacuity and the witness of the one deviation found -/
 
